@@ -35,6 +35,11 @@ type parseModel struct {
 	// it was tabulated at all; the ways in which it accepts less than the specification
 	autoDecided bool
 	autoUnder   []string
+	// Set's error comes back unchanged in every acceptable transition (decided on the automaton)
+	autoPropOK  bool
+	autoPropWhy string
+	// a CFG path that skips Set, to be judged once the automaton has run
+	noskipPending string
 	// semantic model of the defined-once mechanism (skvm.go)
 	kvmSem *KvmSem
 }
@@ -372,7 +377,23 @@ func (w *World) rulesParsePkg(p *Pkg, out *[]Obligation) {
 		add(okc && okr, "R01.prop", "ParseVector."+name, ifs, map[bool]string{true: "error tested, (nil, err) returned unchanged", false: "the error of " + name + " is dropped, replaced or returned with a non-nil object"}[okc && okr])
 		return okc && okr
 	}
-	checkProp(m.setCall, "Set")
+	// for the fixed-order parsers the verdict on Set's error is given after the
+	// cursor automaton has run (it decides the propagation semantically)
+	var deferredProp []Obligation
+	if ov.Order == "fixed" {
+		realAdd := add
+		add = func(ok bool, rule, inst string, n ast.Node, detail string) {
+			pos := k
+			if n != nil {
+				pos = p.pos(n)
+			}
+			deferredProp = append(deferredProp, Obligation{Rule: rule, Instance: k + "." + inst, Pos: pos, OK: ok, Detail: detail, NonTrivial: true})
+		}
+		checkProp(m.setCall, "Set")
+		add = realAdd
+	} else {
+		checkProp(m.setCall, "Set")
+	}
 	if ov.Order == "free" {
 		if kvmCall == nil {
 			add(false, "R01.complete", "ParseVector.kvm", fd, "no defined-once check (kvm.Set) in the loop: a repeated metric is accepted")
@@ -413,7 +434,11 @@ func (w *World) rulesParsePkg(p *Pkg, out *[]Obligation) {
 					desc = append(desc, p.pos(b.Nodes[0]))
 				}
 			}
-			add(false, "R01.noskip", "ParseVector.loop", m.loop, "an element can be skipped: path "+strings.Join(desc, " -> ")+" reaches the next iteration without Set and without an error")
+			m.noskipPending = "an element can be skipped: path " + strings.Join(desc, " -> ") + " reaches the next iteration or the end of the loop without Set and without an error"
+			if ov.Order != "fixed" {
+				add(false, "R01.noskip", "ParseVector.loop", m.loop, m.noskipPending)
+				m.noskipPending = ""
+			}
 		}
 		// R01.cmp (v2/v4): Set reachable from the split only through a comparison with the order table
 		if ov.Order == "fixed" && m.orderVar != nil {
@@ -469,6 +494,23 @@ func (w *World) rulesParsePkg(p *Pkg, out *[]Obligation) {
 			}
 			add(ok, rule, inst, n, detail)
 		})
+		if m.noskipPending != "" {
+			if autoSeen && autoOK {
+				add(true, "R01.noskip", "ParseVector.loop", m.loop, "the control-flow graph has a path that leaves an element without Set or a return (errors travel through a variable to a single exit); in the exact cursor automaton every consumed element calls Set and every other one ends in an error")
+			} else {
+				add(false, "R01.noskip", "ParseVector.loop", m.loop, m.noskipPending)
+			}
+		}
+		// R01.prop for Set: the syntactic verdict, or the automaton's when the
+		// error travels through a variable and a single exit
+		for _, o := range deferredProp {
+			if !o.OK && m.autoPropOK {
+				o.OK = true
+				o.Detail = m.autoPropWhy
+			}
+			*out = append(*out, o)
+		}
+		deferredProp = nil
 		// acceptance of everything Vector writes (round trip, canonical form)
 		switch {
 		case !autoSeen || !m.autoDecided:
